@@ -1,1 +1,4 @@
 import C4E.Props.C02
+import C4E.Props.C03
+import C4E.Props.C04
+import C4E.Props.C14
